@@ -342,3 +342,27 @@ fn c19_canary() {
     kani::assume(!r[2].is_nan());
     assert!(c[2] == r[2], "canary: a 2D container returns a height it never stored");
 }
+
+//@h {"id":"C19.K.tuple.index","props":["C19","C12"],"tier":"quick","kind":"complete","timeout":300,"text":"Index / IndexMut of Coor4D, Coor3D, Coor2D, Coor32 (the contract the Verus prelude assumes for Coor4D): c[i] is element i; c[i] = v changes element i only; all f64 bits, every in-range index"}
+#[kani::proof]
+fn c19_tuple_index() {
+    let r: [f64; 4] = kani::any();
+    let v: f64 = kani::any();
+    let (i, o): (usize, usize) = (kani::any(), kani::any());
+    kani::assume(i < 4 && o < 4 && o != i);
+    let mut c = Coor4D(r);
+    assert!(beq(c[i], r[i]), "C19.K.tuple.index.read: c[i] is element i");
+    c[i] = v;
+    assert!(beq(c[i], v) && beq(c[o], r[o]), "C19.K.tuple.index.write: c[i] = v changes element i only");
+    kani::assume(i < 3 && o < 3);
+    let mut c3 = Coor3D([r[0], r[1], r[2]]);
+    c3[i] = v;
+    assert!(beq(c3[i], v) && beq(c3[o], r[o]), "C19.K.tuple.index.write3");
+    kani::assume(i < 2 && o < 2);
+    let mut c2 = Coor2D([r[0], r[1]]);
+    c2[i] = v;
+    assert!(beq(c2[i], v) && beq(c2[o], r[o]), "C19.K.tuple.index.write2");
+    let mut c32 = Coor32([r[0] as f32, r[1] as f32]);
+    c32[i] = v as f32;
+    assert!(same(c32[i] as f64, v as f32 as f64) && same(c32[o] as f64, r[o] as f32 as f64), "C19.K.tuple.index.write32");
+}
